@@ -4,7 +4,9 @@
    Part 2 (library): the statements tying R1..R5, the address-changed indication, the exhausted search and the transmitted source address
    to the frozen node model (Model/NodeDefs.v, Model/NodeRxDefs.v), the refutation of R5 for commanded addresses (D-04), and the
    instantiation of the generic theorems with the library's reactions.
-   Proofs: Proofs/ClaimProofsA.v (generic), ClaimProofsB.v (library lemmas), ClaimProofsC.v (instantiation); closing theorems: Props/Properties_C03.v. *)
+   Proofs: Proofs/ClaimProofsA.v (generic), ClaimProofsB.v (lib_R1..R5, exhausted search, transmitted source, D-04 witness), ClaimProofsC.v (address-changed
+   indication), ClaimProofsD.v (commanded addresses that avoid siblings, Open()/Restart()), ClaimProofsE.v (instantiation);
+   closing theorems: Props/Properties_C03.v.  Not proved: converges_stmt (search in tools/p_C03.py instead). *)
 From Coq Require Import ZArith List Bool.
 From N2kV Require Import Base.ListAux Model.CanId Model.Sched Model.PgnClass Model.NodeDefs Model.NodeRxDefs Model.NetDefs Gen.GenTables Gen.GenConsts Spec.SendSpec.
 Import ListNotations.
@@ -24,8 +26,9 @@ Inductive cause : Type :=
 | CTick.                      (* time passes (claim windows end, pending answers are sent): never changes an address *)
 
 Section Net.
-(* nodes are numbered; node i owns the devices (i,0) .. (i, ndev i - 1) and ONE inbox: a frame a node sends reaches every other
-   node, never the node itself, so devices of one node never hear each other *)
+(* nodes are numbered 0 .. nodes-1; node i owns the devices (i,0) .. (i, ndev i - 1) and ONE inbox: a frame a node sends reaches every
+   other node, never the node itself, so devices of one node never hear each other (a library instance with several devices is one
+   node; a foreign ISO 11783-5 node is a node with one device) *)
 Variable nstate : Type.                               (* state of one node *)
 Variable nodes : nat.                                 (* number of nodes on the bus: 0 .. nodes-1 *)
 Variable ndev : nat -> nat.
@@ -43,8 +46,10 @@ Definition names_distinct : Prop := forall i k j l, valid_dev i k -> valid_dev j
 Definition sib_distinct (i:nat) (s:nstate) : Prop :=
   forall k l, valid_dev i k -> valid_dev i l -> k <> l -> operational (addr s k) -> addr s k <> addr s l.
 
-(* the hypotheses on a node's behaviour; c is a claim carrying a NAME that is not one of the node's own *)
-Definition pre (i:nat) (s:nstate) (c:claim) : Prop := (i < nodes)%nat /\ good i s /\ sib_distinct i s /\ ~ own_name i (cn c).
+(* the hypotheses on a node's behaviour; c is a claim carrying the NAME of a device of ANOTHER node (NAMEs being distinct, not one of
+   the node's own) *)
+Definition pre (i:nat) (s:nstate) (c:claim) : Prop :=
+  (i < nodes)%nat /\ good i s /\ sib_distinct i s /\ (exists j, j <> i /\ own_name j (cn c)).
 (* R1: holding x and receiving claim(x, n) with n below the own NAME: leaves x *)
 Definition R1 : Prop := forall i s c k, pre i s c -> valid_dev i k -> addr s k = cx c -> operational (cx c) -> cn c < name i k ->
   addr (fst (react i s c)) k <> cx c.
@@ -280,3 +285,84 @@ Definition lib_R5_commanded_partial_stmt : Prop :=
     lib_good r' /\ lib_open r' /\ lib_ndev r' = lib_ndev r /\ (forall k, lib_name r' k = lib_name r k) /\
     (forall k, (k < lib_ndev r)%nat -> lib_src r' k <> lib_src r k -> lib_name r k = nm /\ lib_src r' k = y /\
                  In {| cx := y; cn := nm |} (ev_claims (snd (commanded_all (lib_ndev r) r nm y 0)))).
+
+(* ======================================================================================================================= *)
+(* Part 3: the generic theorems instantiated with the library's reactions                                                  *)
+(* ======================================================================================================================= *)
+(* A network whose nodes are library nodes (state: the frozen model's [rnode]; reaction to a claim: HandleISOAddressClaim; own actions:
+   Open() = StartAddressClaim() over all devices, Restart(), HandleCommandedAddress, expiry of the claim timers) and foreign reference
+   nodes (Model/NetDefs.v, [fnode]), exchanging claims.  This is the claim-level view of Model/NetDefs.v: what is NOT proved is that
+   ParseMessages (poll / rx_frame / handle_system, ISO-TP reassembly of the commanded address) dispatches a received claim frame to
+   HandleISOAddressClaim and nothing else touches N2kSource - that link is covered by the correspondence runs of tools/p_C03.py. *)
+(* the reference node at the level of claims (Model/NetDefs.v fn_react at the level of frames) *)
+Definition ref_next (f:fnode) : Z :=
+  if fn_addr f =? fn_end f then 254 else if fn_addr f + 1 >? 251 then 0 else fn_addr f + 1.
+Definition ref_react (f:fnode) (c:claim) : fnode * list claim :=
+  if (cx c =? fn_addr f) && (fn_addr f <=? 251) then
+    if fn_name f <? cn c then (f, [{| cx := fn_addr f; cn := fn_name f |}])
+    else if cn c <? fn_name f then (fn_with_addr f (ref_next f) (fn_end f), [{| cx := ref_next f; cn := fn_name f |}])
+    else (f, [])
+  else (f, []).
+Definition ref_start (f:fnode) : fnode * list claim :=
+  (fn_with_addr f (fn_pref f) (claim_end_of (fn_pref f)), [{| cx := fn_pref f; cn := fn_name f |}]).
+Definition claim_frame (c:claim) : rxframe := {| r_id := to_can_id 6 60928 (cx c) 255; r_len := 8; r_buf := name_bytes (cn c) |}.
+(* the claim-level reference node is the frame-level one of the model network *)
+Definition ref_react_frames_stmt : Prop :=
+  forall f c, 0 <= cx c < 256 -> 0 <= cn c < 2^64 -> 0 <= fn_addr f < 256 -> 0 <= fn_end f < 256 ->
+    fn_react f (claim_frame c) = (fst (ref_react f c), map claim_frame (snd (ref_react f c))) /\
+    fn_start f = (fst (ref_start f), map claim_frame (snd (ref_start f))).
+
+Definition c_addr (s:pkind) (k:nat) : Z :=
+  match s with
+  | PLib r => if n_open (rn r) =? 3 then lib_src r k else 254          (* a library node that has not opened yet holds nothing *)
+  | PRef f => match k with O => fn_addr f | _ => 254 end
+  end.
+Definition c_react (i:nat) (s:pkind) (c:claim) : pkind * list claim :=
+  match s with
+  | PLib r => if n_open (rn r) =? 3 then (PLib (fst (on_claim r (cx c) (cn c))), ev_claims (snd (on_claim r (cx c) (cn c)))) else (s, [])
+  | PRef f => (PRef (fst (ref_react f c)), snd (ref_react f c))
+  end.
+Definition lib_start (r:rnode) : rnode * list event := start_claim_all (lib_ndev r) (with_open r 3 (r_open_sched r)) 0.
+Definition c_spont (i:nat) (s:pkind) (a:cause) : pkind * list claim :=
+  match s, a with
+  | PLib r, CStart => if n_open (rn r) =? 3 then (s, []) else (PLib (fst (lib_start r)), ev_claims (snd (lib_start r)))
+  | PLib r, CRestart => if n_open (rn r) =? 3 then (PLib (fst (start_claim_all (lib_ndev r) r 0)), ev_claims (snd (start_claim_all (lib_ndev r) r 0))) else (s, [])
+  | PLib r, CCommand nm y =>
+      if n_open (rn r) =? 3 then (PLib (fst (commanded_all (lib_ndev r) r nm y 0)), ev_claims (snd (commanded_all (lib_ndev r) r nm y 0))) else (s, [])
+  | PLib r, CTick => (PLib (claim_started_all (lib_ndev r) r 0), [])
+  | PRef f, CStart => if fn_addr f =? 254 then (PRef (fst (ref_start f)), snd (ref_start f)) else (s, [])
+  | PRef f, _ => (s, [])
+  end.
+(* D-04: only commanded addresses that do not name an address held by a sibling are considered *)
+Definition c_allowed (i:nat) (s:pkind) (a:cause) : Prop :=
+  match s, a with
+  | PLib r, CCommand nm y => 0 <= y <= 251 /\ command_avoids_siblings r nm y
+  | _, _ => True
+  end.
+Section LibNet.
+Variable nodes : nat.
+Variable ndev0 : nat -> nat.                 (* devices per node (a reference node has one) *)
+Variable name0 : nat -> nat -> Z.            (* the NAMEs *)
+Definition c_good (i:nat) (s:pkind) : Prop :=
+  match s with
+  | PLib r => lib_good r /\ lib_ndev r = ndev0 i /\ (forall k, (k < ndev0 i)%nat -> lib_name r k = name0 i k)
+  | PRef f => ndev0 i = 1%nat /\ fn_name f = name0 i 0%nat /\ (0 <= fn_addr f <= 251 \/ fn_addr f = 254) /\ 0 <= fn_end f <= 251 /\ 0 <= fn_pref f <= 251
+  end.
+Definition config_ok : Prop :=
+  names_distinct nodes ndev0 name0 /\ (forall i k, valid_dev nodes ndev0 i k -> 0 <= name0 i k < 2^64).
+End LibNet.
+(* the library's and the reference node's reactions satisfy R1..R5 (commanded addresses: those that avoid the siblings) *)
+Definition library_node_hyps_stmt : Prop :=
+  forall nodes ndev0 name0, config_ok nodes ndev0 name0 ->
+    node_hyps pkind nodes ndev0 c_addr name0 (c_good ndev0 name0) c_react c_spont c_allowed.
+(* hence: in every world reachable from a start in which no library node has opened and no reference node has claimed, whatever the
+   start-up order, the preferred addresses, the order in which pending claims are handled, restarts and (sibling-avoiding) commanded
+   addresses - once nothing is pending, all devices that hold an address hold different ones; and a device only ever yields to a lower NAME *)
+Definition library_quiescent_unique_partial_stmt : Prop :=
+  forall nodes ndev0 name0, config_ok nodes ndev0 name0 ->
+    forall w0 w, initial pkind nodes ndev0 c_addr (c_good ndev0 name0) w0 -> steps pkind nodes c_react c_spont c_allowed w0 w ->
+      pairwise_cover pkind nodes ndev0 c_addr name0 (c_good ndev0 name0) w /\
+      (quiescent pkind w -> forall i k j l, valid_dev nodes ndev0 i k -> valid_dev nodes ndev0 j l -> (i, k) <> (j, l) ->
+         operational (c_addr (st pkind w i) k) -> c_addr (st pkind w i) k <> c_addr (st pkind w j) l) /\
+      (forall i c l1 l2 k, inbox pkind w i = l1 ++ c :: l2 -> valid_dev nodes ndev0 i k ->
+         c_addr (fst (c_react i (st pkind w i) c)) k <> c_addr (st pkind w i) k -> cx c = c_addr (st pkind w i) k /\ operational (cx c) /\ cn c < name0 i k).
